@@ -45,8 +45,8 @@ theorem pop_files (s : State) : s.pop.files = s.files := by
 
 /-- the `depends` list built by the loop names every theory of `depend_list` (all transitive imports, in order) -/
 theorem loopDeps_names (rec : Name → State → R) :
-    ∀ (order : List Name) (s : State) (acc : List (Name × Nat)), (loopDeps rec order s acc).1 = none →
-      (loopDeps rec order s acc).2.2.map (·.1) = acc.map (·.1) ++ order := by
+    ∀ (order : List Name) (s : State) (acc : List (Name × Nat)), (loopDeps W rec order s acc).1 = none →
+      (loopDeps W rec order s acc).2.2.map (·.1) = acc.map (·.1) ++ order := by
   intro order
   induction order with
   | nil => intro s acc _; simp [loopDeps]
@@ -62,9 +62,13 @@ theorem loopDeps_names (rec : Name → State → R) :
       | none => intro h; simp at h
       | some e =>
         simp only []
-        intro h
-        rw [ih _ _ h]
-        simp
+        by_cases hx : (extendList W (s1.thy.getD []) (okItems e.content)).2 = true
+        · rw [if_pos hx]
+          intro h
+          rw [ih _ _ h]
+          simp
+        · rw [if_neg hx]
+          intro h; simp at h
 
 theorem ltcBody_reread {fault : Option Item} {rec : Call → State → R} (hrec : RecOk W L fault rec) (n : Name) (e : Entry)
     {s : State} (hi : Inv W L s) (he : s.entry n = some e) (hch : e.stamp ≠ some (s.files n).mtime)
@@ -100,11 +104,11 @@ theorem ltcBody_reread {fault : Option Item} {rec : Call → State → R} (hrec 
       simp only []
       have hipush : Inv W L s1.push := hl1.inv.of_sameCore (sameCore_push s1)
       have hloop := loopDeps_post W L (fun p s => rec (.ltc p) s) (fun p s hs => hrec (.ltc p) s hs) order s1.push [] hipush
-      have hnames := loopDeps_names (fun p s => rec (.ltc p) s) order s1.push []
+      have hnames := loopDeps_names W (fun p s => rec (.ltc p) s) order s1.push []
       have hordL : L.order e.imports = some order := by
         obtain ⟨T1, hT1⟩ := Option.isSome_iff_exists.mp hc1
         rw [← order_eq W L hl1.inv hT1]; exact hord
-      rcases hlp : loopDeps (fun p s => rec (.ltc p) s) order s1.push [] with ⟨r2, s2, deps⟩
+      rcases hlp : loopDeps W (fun p s => rec (.ltc p) s) order s1.push [] with ⟨r2, s2, deps⟩
       rw [hlp] at hloop hnames
       obtain ⟨hr2, _, _⟩ := hloop
       simp only [] at hr2 hnames
